@@ -157,7 +157,10 @@ func init() {
 			}
 			for i, r := range returnsOf(cp) {
 				key := fmt.Sprintf("%s / return#%d", fnKey(cp), i+1)
-				cv, ok := r.Results[0].(*ssa.Const)
+				cv, ok := returnPart(r, 0).(*ssa.Const)
+				if ok && cv.Value == nil && isBoolT(cv.Type()) {
+					cv = ssa.NewConst(constant.MakeBool(false), cv.Type()) // field left at its zero value
+				}
 				if !ok || cv.Value == nil || cv.Value.Kind() != constant.Bool {
 					c.Undecided(key, r.Pos(), "non-constant pass flag")
 					continue
@@ -176,7 +179,7 @@ func init() {
 					if !ok {
 						f, ok = anyFact(fs, "CurrentConcurrency()", "BatchCount", ".Threshold")
 					}
-					rulep := accessPath(r.Results[1])
+					rulep := accessPath(returnPart(r, 1))
 					c.Check(ok && strings.Contains(rulep, "getRulesOfResource"), key, r.Pos(), "reject under %q returning the violated rule %s", f, rulep)
 				}
 			}
@@ -189,15 +192,17 @@ func init() {
 				nb++
 				dom := false
 				for _, ft := range factsAt(ci.(ssa.Instruction)) {
-					if ex, ok := ft.Cond.(*ssa.Extract); ok && ex.Index == 0 && !ft.Truth {
-						if call, ok := ex.Tuple.(*ssa.Call); ok && isStaticCallTo(call, cp) {
-							dom = true
-						}
+					if call, idx, ok := callPart(ft.Cond); ok && idx == 0 && !ft.Truth && isStaticCallTo(call, cp) {
+						dom = true
 					}
 				}
 				args := ci.Common().Args
 				snap := accessPath(args[len(args)-1])
-				c.Check(dom && bt == "BlockTypeIsolation" && strings.Contains(snap, "checkPass({EntryContext})#2"), fmt.Sprintf("%s / blocked#%d", fnKey(chk), nb), ci.Pos(), "blocked with %s under checkPass()==false (%v), snapshot %s", bt, dom, snap)
+				snapOK := strings.Contains(snap, "checkPass({EntryContext})#2")
+				if call, idx, ok := callPart(args[len(args)-1]); ok && idx == 2 && isStaticCallTo(call, cp) {
+					snapOK = true
+				}
+				c.Check(dom && bt == "BlockTypeIsolation" && snapOK, fmt.Sprintf("%s / blocked#%d", fnKey(chk), nb), ci.Pos(), "blocked with %s under checkPass()==false (%v), snapshot %s", bt, dom, snap)
 			}
 			if nb == 0 {
 				c.Violate(fnKey(chk)+" / blocked", chk.Pos(), "isolation slot never blocks")
@@ -455,9 +460,74 @@ func init() {
 				c.AnchorLost("returns of checkAllNodes")
 				return
 			}
+			// the three lists come back as three results, or as the fields of one small struct assembled in a local
+			// (roles by field name: *filter*, *outlier*, *half*)
+			var resAlloc *ssa.Alloc
+			roleField := map[int]int{}
+			if f.Signature.Results().Len() == 1 {
+				if st, ok := f.Signature.Results().At(0).Type().Underlying().(*types.Struct); ok {
+					for k := 0; k < st.NumFields(); k++ {
+						ln := strings.ToLower(st.Field(k).Name())
+						switch {
+						case strings.Contains(ln, "filter"):
+							roleField[0] = k
+						case strings.Contains(ln, "outlier"):
+							roleField[1] = k
+						case strings.Contains(ln, "half"):
+							roleField[2] = k
+						}
+					}
+					for _, r := range rets {
+						if ld, ok := r.Results[0].(*ssa.UnOp); ok && ld.Op == token.MUL {
+							if al, ok := ld.X.(*ssa.Alloc); ok {
+								resAlloc = al
+							}
+						}
+					}
+				}
+				if resAlloc == nil || len(roleField) != 3 {
+					c.Undecided(fnKey(f)+" / result-shape", f.Pos(), "checkAllNodes returns neither three lists nor a struct with filter / outlier / half-open lists assembled in a local")
+					return
+				}
+			} else if f.Signature.Results().Len() < 3 {
+				c.Undecided(fnKey(f)+" / result-shape", f.Pos(), "checkAllNodes no longer returns the filter, outlier and half-open lists")
+				return
+			}
+			// sameList: two reads of the same list variable (the same SSA value, or two loads of one field of the result struct)
+			sameList := func(a, b ssa.Value) bool {
+				if a == b {
+					return true
+				}
+				la, ok1 := a.(*ssa.UnOp)
+				lb, ok2 := b.(*ssa.UnOp)
+				if !ok1 || !ok2 {
+					return false
+				}
+				fa, ok1 := la.X.(*ssa.FieldAddr)
+				fb, ok2 := lb.X.(*ssa.FieldAddr)
+				return ok1 && ok2 && fa.X == fb.X && fa.Field == fb.Field
+			}
 			// appends flowing into result i
 			appendsInto := func(idx int) []*ssa.Call {
 				var out []*ssa.Call
+				if resAlloc != nil {
+					for _, r := range refsOf(resAlloc) {
+						fa, ok := r.(*ssa.FieldAddr)
+						if !ok || fa.Field != roleField[idx] {
+							continue
+						}
+						for _, r2 := range refsOf(fa) {
+							if st, ok := r2.(*ssa.Store); ok && st.Addr == ssa.Value(fa) {
+								if call, ok := st.Val.(*ssa.Call); ok {
+									if b, ok := call.Call.Value.(*ssa.Builtin); ok && b.Name() == "append" {
+										out = append(out, call)
+									}
+								}
+							}
+						}
+					}
+					return out
+				}
 				seen := map[ssa.Value]bool{}
 				var visit func(v ssa.Value)
 				visit = func(v ssa.Value) {
@@ -511,7 +581,7 @@ func init() {
 					if !ok {
 						continue
 					}
-					if bi, ok := lc.Call.Value.(*ssa.Builtin); !ok || bi.Name() != "len" || lc.Call.Args[0] != ap.Call.Args[0] {
+					if bi, ok := lc.Call.Value.(*ssa.Builtin); !ok || bi.Name() != "len" || !sameList(lc.Call.Args[0], ap.Call.Args[0]) {
 						continue
 					}
 					rp := accessPath(rhs)
@@ -527,13 +597,40 @@ func init() {
 			// the slice given to SetFilterNodes is result 0
 			if chk := c.P.Func("core/outlier.(*Slot).Check"); chk != nil {
 				for _, ci := range callsIn(chk) {
+					// result `role` of the checkAllNodes call: tuple element, or the corresponding field of the result struct
+					isResult := func(v ssa.Value, role int) (bool, string) {
+						p := accessPath(v)
+						if p == fmt.Sprintf("core/outlier.checkAllNodes({EntryContext})#%d", role) {
+							return true, p
+						}
+						if resAlloc == nil {
+							return false, p
+						}
+						var base ssa.Value
+						fld := -1
+						switch x := stripConv(v).(type) {
+						case *ssa.Field:
+							base, fld = x.X, x.Field
+						case *ssa.UnOp:
+							if fa, ok := x.X.(*ssa.FieldAddr); ok && x.Op == token.MUL {
+								if al, ok := fa.X.(*ssa.Alloc); ok {
+									base, fld = allocSingleStore(al), fa.Field
+								}
+							}
+						}
+						if base == nil || fld != roleField[role] {
+							return false, p
+						}
+						call, ok := resolve(base).(*ssa.Call)
+						return ok && call.Call.StaticCallee() == f, p
+					}
 					if cal := ci.Common().StaticCallee(); cal != nil && cal.Name() == "SetFilterNodes" {
-						p := accessPath(ci.Common().Args[1])
-						c.Check(p == "core/outlier.checkAllNodes({EntryContext})#0", fnKey(chk)+" / SetFilterNodes", ci.Pos(), "filter nodes = %s", p)
+						ok, p := isResult(ci.Common().Args[1], 0)
+						c.Check(ok, fnKey(chk)+" / SetFilterNodes", ci.Pos(), "filter nodes = %s", p)
 					}
 					if cal := ci.Common().StaticCallee(); cal != nil && cal.Name() == "SetHalfOpenNodes" {
-						p := accessPath(ci.Common().Args[1])
-						c.Check(p == "core/outlier.checkAllNodes({EntryContext})#2", fnKey(chk)+" / SetHalfOpenNodes", ci.Pos(), "half-open nodes = %s", p)
+						ok, p := isResult(ci.Common().Args[1], 2)
+						c.Check(ok, fnKey(chk)+" / SetHalfOpenNodes", ci.Pos(), "half-open nodes = %s", p)
 					}
 				}
 			}
@@ -690,4 +787,10 @@ func init() {
 			}
 		},
 	})
+}
+
+
+func isBoolT(t types.Type) bool {
+	b, ok := t.Underlying().(*types.Basic)
+	return ok && b.Kind() == types.Bool
 }
